@@ -482,32 +482,63 @@ class CFG:
         return out
 
     # ---- path search that respects correlated branch conditions -----------------
-    def find_feasible_path(self, start, is_target, is_blocker, start_after=True, max_states=20000):
+    def _null_init_facts(self):
+        """{DeclStmt element id: [(fact key, False)]} for pointer locals initialised with a null constant: passing the declaration
+        establishes `p` is false until p is written (only for variables that some branch condition tests directly)"""
+        if getattr(self, "_nif", None) is None:
+            from .facts import is_null_const
+            keyof = {}
+            for k in self._mention:
+                n = self._factnode.get(k)
+                if n is not None and strip(n)["k"] == "DeclRefExpr" and strip(n).get("loc"):
+                    keyof[strip(n)["d"]] = k[0]
+            out = {}
+            for n in self.fn.walk():
+                if n["k"] == "DeclStmt":
+                    for v in kids(n):
+                        if v["k"] == "VarDecl" and v["d"] in keyof and kids(v) and is_null_const(kids(v)[0]):
+                            out.setdefault(n["i"], []).append((keyof[v["d"]], False))
+            self._nif = out
+        return self._nif
+
+    def find_feasible_path(self, start, is_target, is_blocker, start_after=True, max_states=20000, null_inits=False, want_facts=False):
         """like find_path, but carries the branch facts taken along the path (killed by writes to what they mention)
-        and never takes an edge whose fact contradicts one already held. is_target may be 'exit'."""
+        and never takes an edge whose fact contradicts one already held. is_target may be 'exit'.
+        null_inits: a pointer local declared with a null initialiser counts as a held fact `p is false` from its declaration on.
+        want_facts: return (path, facts held when the target is reached)."""
         if not hasattr(self, "_edge_facts"):
             self.facts_in()
         sb, si = start
         first = si + 1 if start_after else si
         seen = set()
-        work = [(sb, first, frozenset(), [sb])]
+        nif = self._null_init_facts() if null_inits else {}
+        init = frozenset()
+        if null_inits and not start_after:
+            pass
+        elif null_inits:
+            e0 = self.blocks[sb].elems[si] if 0 <= si < len(self.blocks[sb].elems) else None
+            if isinstance(e0, int) and e0 in nif:
+                init = frozenset(nif[e0])
+        work = [(sb, first, init, [sb])]
         states = 0
         while work:
             b, i0, held, path = work.pop()
             states += 1
             if states > max_states:
-                return path  # give up conservatively: report a path
+                return (path, frozenset()) if want_facts else path  # give up conservatively: report a path
             blk = self.blocks[b]
             blocked = False
             cur = set(held)
             for idx in range(i0, len(blk.elems)):
                 e = blk.elems[idx]
                 if is_target != "exit" and is_target(b, idx, e):
-                    return path
+                    return (path, frozenset(cur)) if want_facts else path
                 if is_blocker(b, idx, e):
                     blocked = True
                     break
                 n = self.fn.nodes.get(e) if isinstance(e, int) else None
+                if isinstance(e, int) and e in nif:
+                    cur |= set(nif[e])
                 if n is not None:
                     tgt = write_target(n)
                     if tgt is not None:
@@ -522,7 +553,7 @@ class CFG:
             if blocked:
                 continue
             if is_target == "exit" and b == self.exit:
-                return path
+                return (path, frozenset(cur)) if want_facts else path
             for s in blk.succs:
                 if s is None:
                     continue
